@@ -65,6 +65,14 @@ def _wf_refs(eng, st, v, ty):
     if isinstance(v, SRef):
         st.assume(z3.And(v.t >= 0, v.t < st.heap.next_ref))
         if ty.kind == "class":
+            # encoding assumption: the container-valued fields of ONE object hold pairwise distinct containers
+            ci0 = eng.reg.get(ty.name)
+            if ci0 is not None:
+                cf = [f for f, t in ci0.fields.items() if t.kind in ("dict", "list", "set")]
+                if 2 <= len(cf) <= 40:
+                    refs = [Val.rid(st.read_field(v.t, f)) for f in cf]
+                    st.assume(z3.Distinct(*refs))
+        if ty.kind == "class":
             ci = eng.reg.get(ty.name)
             subs = eng.reg.subclasses(ci) if ci else []
             if ci is not None and len(subs) == 1:
@@ -95,6 +103,13 @@ _orig_lookup = Engine.lookup
 
 
 def _lookup(self, name, st, fi, node=None):
+    obs = getattr(self, "spec_observes", None)
+    if self.pure and obs and name in obs and name not in st.frames[fi].vars:
+        v = st.ghost.get("obs:" + obs[name])
+        if v is None:
+            # the external call did not happen on this path: the name denotes an arbitrary value of the declared type
+            v = self.external_result(st, obs[name])
+        return v
     lets = getattr(self, "spec_lets", None)
     if self.pure and lets and name in lets and name not in st.frames[fi].vars:
         expr = lets[name]
@@ -205,6 +220,7 @@ class Verifier:
         eng.verifying = target
         eng._verifier = self
         eng.inline_all = target.startswith("harness:") or bool(c.opts.get("inline_all"))
+        eng.spec_observes = dict(c.observes)
 
         def callsite(cc, cl, st_, g, node_):
             fake = Clause(cl.expr, tag=f"callee-pre {cc.target.split(':')[1]}:{cl.tag or cl.lineno}", top=False, lineno=cl.lineno, src=cl.src)
@@ -367,8 +383,13 @@ class Verifier:
 
 
 def _with_pc(old: State, st: State) -> State:
+    """the pre-state heap/frames under the path condition of st; results of external calls observed along the path
+    (contract clause `observes`) are path facts, not heap state, and are carried over"""
     o = old.copy()
     o.pc = st.pc
+    for k, v in st.ghost.items():
+        if k.startswith("obs:"):
+            o.ghost[k] = v
     return o
 
 
@@ -421,6 +442,18 @@ def apply_contract(eng: Engine, st: State, fv: SFunc, c: Contract, args, kwargs,
         na = sym.fresh_const("events", sym.SeqArrS)
         st.assume(z3.ForAll([k], z3.Implies(z3.And(k >= 0, k < st.ev_len), z3.Select(na, k) == z3.Select(st.ev_arr, k))))
         st.ev_len, st.ev_arr = n, na
+    for name, arg_exprs in c.logs:
+        vals = []
+        saved = eng.pure
+        eng.pure = True
+        eng.spec_lets = dict(c.lets)
+        try:
+            for a in arg_exprs:
+                (s_, v_), = eng.ev(a, st, fi)
+                vals.append(v_)
+        finally:
+            eng.pure = saved
+        st.log_event(name, [v_ for v_ in vals if not isinstance(v_, (SFunc,))])
     # objects allocated by the callee
     na = z3.Int(sym.fresh_name("alloc"))
     st.assume(na >= st.heap.next_ref)
